@@ -2,6 +2,7 @@
  * E2: exhaustive enumeration of (size, src, dest-prefix), (string, idx, cnt) and all strings
  * of length <= L over a 7-symbol alphabet; reference transformations written here. */
 #include "hcommon.h"
+#include <locale.h>
 #include <ctype.h>
 
 static int L;                                   /* length bound */
@@ -28,7 +29,8 @@ static void cpy_desc(uint64_t idx, void *ctx, char *buf, size_t n)
     cpy_case c; (void) ctx; cpy_decode(idx, &c);
     snprintf(buf, n, "spiftool_safe_strncpy(dest[%d bytes of '#'], src=%d letters, size=%d)", c.size > 0 ? c.size : 1, c.srclen, c.size);
 }
-static void mk_src(char *src, int len) { for (int i = 0; i < len; i++) src[i] = (char) ('a' + i % 26); src[len] = 0; }
+static int g_src_utf8;             /* --src=utf8: the source is made of 2-, 3- and 4-byte UTF-8 sequences and a lone 0xA0 instead of letters (a copy is cut at the byte that does not fit, wherever that is) */
+static void mk_src(char *src, int len) { static const char U[] = "\xc3\xa9\xe2\x82\xac\xf0\x9f\x98\x80\xa0"; for (int i = 0; i < len; i++) src[i] = g_src_utf8 ? U[i % 10] : (char) ('a' + i % 26); src[len] = 0; }
 
 static void cpy_case_fn(uint64_t idx, void *ctx)
 {
@@ -316,6 +318,11 @@ int main(int argc, char **argv)
     libast_debug_level = (unsigned) mc_dlevel();        /* --dlevel=N: the whole run at runtime debug level N (default 0) */
     L = (int) mc_arg_int("L", mc_thorough() ? 7 : 4);
     if (L > 9) L = 9;
+    g_src_utf8 = !strcmp(mc_arg("src", ""), "utf8");
+    if (mc_arg("locale", NULL)) {           /* --locale=NAME: the whole run after setlocale(LC_ALL, NAME) - the helpers count bytes in every locale */
+        if (!setlocale(LC_ALL, mc_arg("locale", ""))) { mc_info("locale", "locale %s is not installed: this run is skipped", mc_arg("locale", "")); return mc_finish(); }
+        mc_info("locale", "setlocale(LC_ALL, \"%s\"): MB_CUR_MAX=%d", mc_arg("locale", ""), (int) MB_CUR_MAX);
+    }
     mc_info("alphabet", "in-place: {a,Z,space,tab,newline,0x01,0xE9}^<=%d; strncpy/strncat: size -1..%d, src 0..%d, dest prefix 0..size+1; substr: len<=%d, idx,cnt in [-%d,%d]; in-place helpers on runs of 127..65537 equal bytes; strncpy/strncat with sizes 127..65537 and lengths at size-2..size+1",
             L, L + 2, L + 1, L, L + 2, L + 2);
     mc_e2_level("safe_strncpy", L, (uint64_t) (L + 4) * (uint64_t) (L + 2), cpy_case_fn, cpy_desc, NULL);
